@@ -77,10 +77,22 @@ pub struct Scenario {
     pub linger_us: u64,
     /// application operations give up at this virtual time
     pub deadline_us: u64,
+    /// C04: a violating frame is appended to a genuine packet at the victim's rx interceptor
+    #[serde(default)]
+    pub violation: Option<Violation>,
     /// client address changes: (time, new ip too?)
     #[serde(default)]
     pub rebinds: Vec<(u64, bool)>,
     /// connection id lifetime in seconds for both endpoints (0 = provider default: no expiry)
     #[serde(default)]
     pub cid_lifetime_s: u64,
+}
+
+#[derive(Clone, Debug, Serialize, Deserialize)]
+pub struct Violation {
+    pub victim: String,
+    pub kind: String,
+    /// inject into the n-th packet of the required space that reaches the victim after `after_us`
+    pub nth: u32,
+    pub after_us: u64,
 }
